@@ -8,6 +8,7 @@ import itertools
 
 from hypothesis import strategies as st
 
+from eglib import h
 from eglib.driver import Violation, require, sharded
 from eglib.model import Model, ModelRaises
 from eglib.world import World
@@ -85,6 +86,7 @@ def _invariant(w, where):
         U = w.vs[u]
         mem = U.vertices
         ids = [id(x) for x in mem]
+        h.spoil(mem)        # the list is the caller's: scribbling on it must not show anywhere
         require(len(set(ids)) == len(ids), "duplicate-member", lambda: f"{where}: universe {u} lists a member twice: {[vi.get(i, '?') for i in ids]}")
         for k, v in enumerate(w.vs + w.bulk_members):
             a = id(v) in ids
